@@ -28,9 +28,11 @@ pub enum Pipe {
   ThrottleTail,
   /// flat_map over a hot inner and a synchronous `from_iter` inner (counting iterator)
   FlatMapIter,
+  /// concat_all_threads: inner 0 running, the outer may hand over inner 1 / complete
+  ConcatAll,
 }
 
-pub const C10_PIPES: &[Pipe] = &[Pipe::Subject, Pipe::Merge, Pipe::Zip, Pipe::CombineLatest, Pipe::TakeUntil, Pipe::MergeAll, Pipe::Share, Pipe::ObserveOn, Pipe::Delay];
+pub const C10_PIPES: &[Pipe] = &[Pipe::Subject, Pipe::Merge, Pipe::Zip, Pipe::CombineLatest, Pipe::TakeUntil, Pipe::MergeAll, Pipe::ConcatAll, Pipe::Share, Pipe::ObserveOn, Pipe::Delay];
 
 /// What the logical threads can do to a pipeline.
 pub struct Rig {
@@ -237,6 +239,20 @@ pub fn build(p: Pipe) -> Rig {
       });
       Rig { feed: feed_tags(vec![0]), ninputs: 1, unsub, subscribe: None, probes: vec![probe], drain: nodrain, peek: None, extra: vec![("outer emits the from_iter inner", start_iter)] }
     }
+    Pipe::ConcatAll => {
+      let src = cat::hot_tagged_t(9);
+      keep!(src.map(|v: Val| cat::hot_tagged_t(v.sym().konst().unwrap() as usize)).concat_all_threads().actual_subscribe(probe));
+      let mut h = cat::handle_t(9);
+      h.next(Val::c(0));
+      let hand_over: Rc<dyn Fn()> = Rc::new(|| {
+        let mut h = cat::handle_t(9);
+        h.next(Val::c(1));
+      });
+      let outer_done: Rc<dyn Fn()> = Rc::new(|| {
+        cat::handle_t(9).complete();
+      });
+      Rig { feed: feed_tags(vec![0, 1]), ninputs: 2, unsub, subscribe: None, probes: vec![probe], drain: nodrain, peek: None, extra: vec![("outer.next(inner1)", hand_over), ("outer.complete()", outer_done)] }
+    }
     Pipe::Finalize => {
       let fin = move || {
         let n = world::bump(1);
@@ -346,6 +362,29 @@ fn c02_threads_sched() {
   e::cover("c02-threads-sched-path-complete");
 }
 
+/// all interleavings of two sequences of lengths a and b (as thread indices)
+fn interleavings(a: usize, b: usize) -> Vec<Vec<usize>> {
+  fn go(a: usize, b: usize, cur: &mut Vec<usize>, out: &mut Vec<Vec<usize>>) {
+    if a == 0 && b == 0 {
+      out.push(cur.clone());
+      return;
+    }
+    if a > 0 {
+      cur.push(0);
+      go(a - 1, b, cur, out);
+      cur.pop();
+    }
+    if b > 0 {
+      cur.push(1);
+      go(a, b - 1, cur, out);
+      cur.pop();
+    }
+  }
+  let mut out = vec![];
+  go(a, b, &mut vec![], &mut out);
+  out
+}
+
 #[derive(Clone, Debug)]
 enum TOp {
   Feed(usize, Ev),
@@ -420,10 +459,12 @@ fn c10_preempt(pipes: &[Pipe], nops: usize, max_preempt: u32) {
   let late: Rc<RefCell<Vec<Probe>>> = Rc::new(RefCell::new(vec![]));
   let key: &'static str = crate::h_sched::leak_key(format!("callback-started-after-unsubscribe-returned/{:?}", p));
   let mut desc = vec![];
+  let mut script: Vec<Vec<TOp>> = vec![vec![], vec![]];
   for t in 0..2 {
     for _ in 0..nops {
       let op = draw_op(&rig, t == 1);
       desc.push(format!("T{}:{}", t, show_op(&op)));
+      script[t].push(op.clone());
       world::thread_push(t, make_closure(&rig, op, late.clone(), key));
     }
   }
@@ -467,6 +508,51 @@ fn c10_preempt(pipes: &[Pipe], nops: usize, max_preempt: u32) {
     let triggered = rig.probes[0].terminated() || rig.unsub.borrow().is_none();
     if triggered && n != 1 {
       e::fail("finalize_threads/not-exactly-once", || format!("finalizer ran {} times after terminate/unsubscribe from two threads", n));
+    }
+  }
+  // Serialisability: what the subscribers saw must be what *some* serial order of the two
+  // threads' operations produces (each operation atomic), decided by replaying every such
+  // order against a fresh instance of the same pipeline. A lost completion, a lost item or
+  // a lost hand-over shows up here.
+  if !matches!(p, Pipe::Behavior | Pipe::FlatMapIter) && !script.iter().flatten().any(|o| matches!(o, TOp::Subscribe)) {
+    let got: Vec<Vec<Ev>> = rig.probes.iter().map(|q| q.events()).collect();
+    drop(rig);
+    let orders = interleavings(script[0].len(), script[1].len());
+    let mut ok = false;
+    let mut shown = vec![];
+    for order in orders {
+      world::reset_world();
+      let rig2 = build(p);
+      let late2: Rc<RefCell<Vec<Probe>>> = Rc::new(RefCell::new(vec![]));
+      let mut idx = [0usize; 2];
+      for t in order {
+        let op = script[t][idx[t]].clone();
+        idx[t] += 1;
+        (make_closure(&rig2, op, late2.clone(), "unused"))();
+      }
+      // the serial replay is only an oracle: its own monitors are not the subject here
+      (rig2.drain)();
+      let want: Vec<Vec<Ev>> = rig2.probes.iter().map(|q| q.events()).collect();
+      let mut t = crate::val::tt();
+      let mut shape = got.len() == want.len();
+      if shape {
+        for (a, b) in got.iter().zip(want.iter()) {
+          match model::compare_events(a, b) {
+            Ok(x) => t = crate::val::b_and(t, x),
+            Err(_) => shape = false,
+          }
+        }
+      }
+      if shape && e::valid(t) {
+        ok = true;
+        break;
+      }
+      if shown.len() < 3 {
+        shown.push(want.iter().map(|l| model::show_events(l)).collect::<Vec<_>>().join(" / "));
+      }
+    }
+    if !ok {
+      e::fail(&format!("not-serialisable/{:?}", p), || format!("concurrent run delivered [{}]; no serial order of the same operations does (e.g. {})", got.iter().map(|l| model::show_events(l)).collect::<Vec<_>>().join(" / "), shown.join(" | ")));
     }
   }
   e::cover("c10-preempt-path-complete");
